@@ -16,7 +16,7 @@ CHECKS = {
         'engine': 'E-enum',
         'technique': 'bounded-exhaustive enumeration of ASTs (complete parent x operand-slot x child matrix, all clause subsets and FROM forms, all literal forms) printed by an independent precedence-ladder printer and re-parsed; differential of the shipped parser against a parser regenerated from the grammar on accepted and rejected texts',
         'design_ref': 'DESIGN.md section 4, C06',
-        'text': 'The complete depth-2 matrix (30 parent kinds x 54 operand slots x 42 children = 2,268 cells; thorough: depth 3 over 54x54 slot pairs), n-ary AND/OR shapes, every literal spelling in 4-6 '
+        'text': 'The complete depth-2 matrix (30 parent kinds x 54 operand slots x 42 children = 2,268 cells; thorough: depth 3 over 54x54 slot pairs), n-ary AND/OR shapes, every literal spelling (incl. strings holding TAB / CR / form feed / either quote) in 4-6 '
                 'contexts and all lists of 1..3 literals, 705 identifier cases incl. every reserved word followed by a digit or underscore, all 192 clause subsets, 46 FROM forms, BALANCES/JOURNAL/PRINT forms, '
                 'each printed with minimal and full parentheses in rotating spellings (case, whitespace, comments): parse(print(ast)) == ast. The parser is regenerated from bql.ebnf with '
                 'tatsu.to_python_sourcecode on every run and both parsers must give the same AST or the same rejection (position included) on the printed texts and on 6.6k rejected texts (all token '
@@ -38,7 +38,7 @@ CHECKS = {
         'technique': 'exhaustive enumeration of the operator/function x operand-type matrix, of the product of clause-rule dimensions and of short token sequences / single-token edits, against an independently written reference type checker and an exception-class invariant',
         'design_ref': 'DESIGN.md section 4, C05',
         'text': '(a) 56k compile-only cases: every operator node x every ordered operand-type tuple over 14 types (binary 14x14, BETWEEN 14^3), every function name in the live registry x every argument tuple of '
-                'length 0..2 (3 over 8 types), attributes and subscripts on every type: accept/reject must equal vt/ref/typing.py (overload resolution re-implemented from the declared signatures; a committed '
+                'length 0..2 (3 over 8 types), attributes and subscripts on every type, and the operator / function cases of <= 3 operands again over CONSTANT operands (compile-time folding path): accept/reject must equal vt/ref/typing.py (overload resolution re-implemented from the declared signatures; a committed '
                 'snapshot of 237 signatures is the lower bound). (b) 508k statements: 21 target kinds x 5 WHERE x 16 GROUP BY x 4 HAVING x 12 ORDER BY core product, every other dimension (15 FROM forms incl. '
                 'OPEN/CLOSE orders, 9 PIVOT BY, COALESCE, IN arity, parameters, duplicate names, DISTINCT, LIMIT) crossed with a reduced core: accepted iff all rules of the property hold; accepted '
                 'statements are executed. (c) 15k texts: all token sequences of length <= 2 over 52 tokens, all single-token edits of a 42-statement corpus, literal edge cases. Every rejection must be '
@@ -101,11 +101,11 @@ CHECKS = {
         'engine': 'E-enum',
         'technique': 'exhaustive enumeration of parameter assignments, constant assignments and ALL execution histories up to a depth on one connection, each compared with literal / per-row / fresh-connection executions',
         'design_ref': 'DESIGN.md section 4, C09',
-        'text': '(1) 21 statement templates (placeholders in targets, WHERE, ORDER BY expressions, function arguments, FROM- and IN-subqueries, non-commutative contexts, repeated names, list values) x ALL '
+        'text': '(1) 22 statement templates (placeholders in targets, WHERE, ORDER BY expressions, function arguments, FROM- and IN-subqueries, non-commutative contexts, repeated names, list values) x ALL '
                 'assignments from per-slot literal alphabets: the parsed named and positional statements are re-executed for every assignment and must equal the statement with the values written as '
                 'literals (textual order for positional) and the reference interpreter. (2) Every depth<=2 expression of the C01 enumerator x ALL non-NULL constant assignments: folded value and announced '
-                'datatype equal per-row evaluation from a one-row table and the reference. (3) ALL 22^d histories (d <= 3 quick, <= 4 thorough) of executions on one connection (shared parsed statements with '
-                'other parameters, executemany, aggregate, PIVOT, IN/FROM subqueries, balance twice, OPEN/CLOSE, failing statement, second cursor, regex functions sharing a pattern, PRINT, #entries, a shell session running a named query, the same text through the API, sum/first/last over a user table of persistent Inventory objects): every step equals the fresh-connection outcome and the source '
+                'datatype equal per-row evaluation from a one-row table and the reference. (3) ALL 24^d histories (d <= 3 quick, <= 4 thorough) of executions on one connection (shared parsed statements with '
+                'other parameters, executemany, aggregate, PIVOT, IN/FROM subqueries, balance twice, OPEN/CLOSE, failing statement, second cursor, regex functions sharing a pattern, PRINT, #entries, a shell session running a named query, the same text through the API, sum/first/last over a user table of persistent Inventory objects, three FROM-subquery statements of different shapes): every step equals the fresh-connection outcome and the source '
                 'data is unchanged.',
         'note': 'Trusted: vt/ref/select.py, vt/ref/expr.py. Histories are not merged by state (no abstraction argument needed); pristine statements per history are deep copies of freshly parsed ASTs.',
     },
@@ -116,7 +116,7 @@ CHECKS = {
         'text': 'Every column of <= 3 cells for each of 12 datatypes over alphabets with NULL, negatives, differing precision, several currencies, empty and multi-lot inventories x all 128 combinations of '
                 'boxed/unicode/spaced/expand/narrow/nullvalue/list separator; all 144 ordered datatype pairs (quick: a strength-3 orthogonal array of 16 option runs; thorough: all 128); the empty result. '
                 'Invariants on the emitted text: equal line widths, cells inside the column spans read off the rule line, header centred / cut only in narrow mode, NULL placeholder, extra lines only with '
-                'expand and never fewer than one, decimal-point alignment, read-back of every cell to its value; CSV: header + one record per expanded row, field == text cell.',
+                'expand and never fewer than one, decimal-point alignment, read-back of every cell to its value; CSV: header + one record per expanded row, field == text cell, output independent of the text-only options.',
         'note': 'Trusted: vt/ref/render.py (cell reader). Weakest readings listed in the evidence assumptions (centring within 1 blank, scientific notation exempt from alignment, unknown currencies outside).',
     },
     'C17': {
@@ -124,7 +124,7 @@ CHECKS = {
         'technique': 'bounded-exhaustive enumeration of result tables mixing plain and amount-like columns against an oracle derived from the property text',
         'design_ref': 'DESIGN.md section 4, C17',
         'text': 'Every Amount/Position/Inventory column of <= 3 (quick) / <= 4 (thorough) cells over {NULL, 1-2 of 3 currencies, zero amounts, multi-lot and empty inventories} in three layouts with plain columns, '
-                'and all two- (thorough: three-) column combinations of <= 2 rows, with and without a display formatter: other columns/rows/order untouched, one `name (CUR)` decimal column per currency in '
+                'and all two- (thorough: three-) column combinations of <= 2 rows, without a formatter, with the default one and with Precision.MAXIMUM over a display context of mixed digit counts: other columns/rows/order untouched, one `name (CUR)` decimal column per currency in '
                 'non-increasing frequency, each cell = sum of units over lots (quantised with a formatter) or NULL/0 when absent, no non-zero currency dropped; run_query(numberify=True) equals numberify_results of the API result on the sample ledger.',
         'note': 'Trusted: beancount Inventory/Amount. Tie order among equally frequent currencies is free; frequency read as rows or lots.',
     },
@@ -145,7 +145,7 @@ CHECKS = {
         'design_ref': 'DESIGN.md section 4, C15',
         'text': 'ALL tables of <= 3 rows over a 12-letter and <= 2 rows over a 27-letter (r, k, v) alphabet (thorough: <= 4 / <= 3) x ALL 240 layouts: every permutation of [r, k, agg] and '
                 '[r, k, agg1, agg2] target lists for four aggregate sets, PIVOT BY by names and by positions, in both pivot orders. Names, datatypes and every cell are compared with the reshaping '
-                'of the reference un-pivoted result, the real result is un-pivoted back and compared with it, and eight kinds of invalid PIVOT BY references must be rejected at compile time.',
+                'of the reference un-pivoted result, the real result is un-pivoted back and compared with it, the same statement object is executed a second time on tables of <= 2 rows, and eight kinds of invalid PIVOT BY references must be rejected at compile time.',
         'note': 'Trusted: vt/ref/select.py for the un-pivoted result. NULL pivot keys are excluded (ordering unspecified).',
     },
     'C18': {
@@ -162,7 +162,7 @@ CHECKS = {
         'technique': 'explicit-state BFS over the shell settings store on the product (real BQLShell, reference settings model) to closure, plus exhaustive CLI option product',
         'design_ref': 'DESIGN.md section 4, C19',
         'text': 'The product (real batch-mode BQLShell settings by value, model) closes at 768 states (2^7 booleans x 2 formats x 3 nullvalues); in EVERY state 101 events (all assignment spellings, invalid '
-                'values, unknown names incl. attributes of the settings object, wrong arity, legacy commands, unknown commands, .tables/.describe/.run) are executed on the real shell and compared with the '
+                'values, unknown names incl. attributes of the settings object, wrong arity, legacy commands, unknown commands, .tables/.describe/.run) are executed; all sessions of <= 3 steps over two named queries of identical text and different dates and the same text typed on the real shell and compared with the '
                 'model (output, state unchanged on error, successors inside the closed set); statements / .run / .explain are compared with the renderers called directly in the 55 states near the default '
                 '(quick) or all 768 (thorough); the CLI entry point is run for all 128 combinations of -f x -m x -o x -q x ledger {clean, with errors} x spellings.',
         'note': 'Trusted: renderers, numberify and Connection.execute are the yardstick (the property compares the shell with them). Interactive mode, pager, readline are outside. Default CLOSE date is only claimed for SELECT with a FROM clause.',
@@ -184,7 +184,7 @@ CHECKS = {
         'design_ref': 'DESIGN.md section 4, C02',
         'text': 'ALL row sequences of length <= 3 (quick) / <= 4 (thorough) over a 9-letter (k, v) row alphabet with NULLs, for value types int, Decimal, str, date, bool, and over an 18-letter '
                 '(k, m, v) alphabet for two-key statements, x 14 one-key and 9 two-key grouping forms (by column, alias, index, hidden, implicit, none, key expressions, repeated keys, key '
-                'order) x aggregate lists (all 18 at once and each alone, arithmetic over aggregates) x WHERE x HAVING menus; group-wise count/sum vs ungrouped totals differential; and every '
+                'order) x aggregate lists (all 18 at once and each alone, arithmetic over aggregates) x WHERE x HAVING menus, HAVING x LIMIT without ORDER BY; group-wise count/sum vs ungrouped totals differential; and every '
                 'ordered pair of hashable columns of every Beancount-backed table kind (hidden keys, alias + hidden key, uncovered target rejected).',
         'note': 'Trusted: vt/ref/select.py + vt/ref/expr.py. sum(bool) compared by numeric value. The table-kind sweep partitions the rows returned by the non-aggregate SELECT c1, c2.',
     },
@@ -194,7 +194,7 @@ CHECKS = {
         'design_ref': 'DESIGN.md section 4, C03',
         'text': 'ALL tables of <= 3 (quick) / <= 4 (thorough) rows over a 9-letter alphabet with NULLs and ties (row id makes stability observable) x ALL lists of 1..3 distinct keys out of 4 '
                 'candidates with every ASC/DESC vector (thorough adds all 4-key lists) x key forms (position, alias, repeated expression, hidden expression, mixed) x DISTINCT x LIMIT '
-                '{none,0,1,2,>size}; aggregate queries ordered by group keys / aggregates / hidden aggregates; every ordered pair of orderable columns of every Beancount table kind with a hidden '
+                '{none,0,1,2,>size}; aggregate queries ordered by group keys / aggregates / hidden aggregates, DISTINCT over grouped queries whose key is not selected; every ordered pair of orderable columns of every Beancount table kind with a hidden '
                 'ORDER BY key; IN-subquery targets combined with a different IN-subquery ordering key.',
         'note': 'Trusted: vt/ref/select.py (functools.cmp_to_key comparator, sorted() stability). Unorderable keys and unhashable rows are outside the property.',
     },
